@@ -3,7 +3,7 @@
 //! `sched-begin <i>` before case `i` (index in FILE, from 0) and `sched-done <i>` after its output is flushed.
 //! `sched run FILE --only K` runs only case K (same output as in the full run).
 //!
-//! `sched gen --seed S --cases N --profile fast|list|refs|aba|crashseq --out PREFIX` — generates N cases, writes
+//! `sched gen --seed S --cases N --profile fast|list|refs|aba|crashseq|readers --out PREFIX` — generates N cases, writes
 //! PREFIX.cases (input; appended case by case BEFORE the case is run, so that the last case of the file is the
 //! culprit when the crate under test kills the process) and PREFIX.impl (what `sched run PREFIX.cases` prints)
 //! and a JSON summary line on stderr. Every random choice derives from one `SplitMix64` seeded with S.
@@ -17,7 +17,7 @@ use rarena_verif_harness::*;
 
 fn usage() -> ! {
   eprintln!(
-    "usage: sched run FILE [--only K]\n       sched gen --seed S --cases N --profile fast|list|refs|aba|crashseq --out PREFIX"
+    "usage: sched run FILE [--only K]\n       sched gen --seed S --cases N --profile fast|list|refs|aba|crashseq|readers --out PREFIX"
   );
   std::process::exit(2)
 }
@@ -97,6 +97,7 @@ enum Profile {
   Refs,
   Aba,
   CrashSeq,
+  Readers,
 }
 
 struct Gen {
@@ -161,7 +162,7 @@ fn trace_probe(line: &str) {
 fn est_steps(op: &str, slow: bool) -> u64 {
   match op.split(' ').next().unwrap_or("") {
     "fill" | "verify" | "flush" => 0,
-    "clone" | "refs" | "set_minseg" | "inc_discarded" | "clear" => 1,
+    "clone" | "refs" | "set_minseg" | "inc_discarded" | "clear" | "rd" | "rd_var" => 1,
     "drop_arena" | "rewind" => 2,
     "alloc_bytes_owned" => 4,
     o if o.starts_with("alloc") => {
@@ -300,6 +301,69 @@ impl Gen {
       c.threads.push((tid, ops));
     }
     // the threads may also share ONE arena value by reference (no clones: refs() == 1 while they run)
+    c.noclone = self.rng.chance(25);
+    c.sched = self.schedule(&est);
+    c
+  }
+
+  // ---- readers: arena-level readers racing with a cursor that moves up and down ----------------
+  fn case_readers(&mut self) -> SchedCase {
+    let mut cfg = self.base_cfg(&[0, 1, 2], 10);
+    cfg.cap = cfg.prefix() + self.rng.pick(&[256u32, 512, 1024]);
+    let prefix = cfg.prefix() as u64;
+    let mut c = SchedCase { cfg: cfg.line(), budget: DEFAULT_BUDGET, ..Default::default() };
+    // some filled memory below everything that follows
+    let mut top = prefix;
+    let mut h = 0u32;
+    for _ in 0..self.rng.range(0, 2) {
+      let n = self.rng.range(1, 24);
+      let b = self.byte();
+      c.pre.push(format!("alloc_bytes {h} {n}"));
+      c.pre.push(format!("fill {h} {b}"));
+      top += n;
+      h += 1;
+    }
+    let nt = self.rng.range(2, 3) as usize;
+    let mut est = Vec::new();
+    // thread 1 (and sometimes 2) move the cursor: allocate on top, fill, give the top back
+    let movers = if nt == 3 && self.rng.chance(50) { 2 } else { 1 };
+    let mut reach = top;
+    for tid in 1..=movers {
+      let mut ops = Vec::new();
+      let mut id = 100 * tid as u32;
+      for _ in 0..self.rng.range(1, 3) {
+        let n = self.rng.range(1, 20);
+        let b = self.byte();
+        ops.push(format!("alloc_bytes {id} {n}"));
+        ops.push(format!("fill {id} {b}"));
+        if self.rng.chance(70) {
+          ops.push(format!("{} {id}", self.rng.pick(&["drop", "dealloc"])));
+        }
+        reach += n;
+        id += 1;
+      }
+      est.push((tid, ops.iter().map(|o| est_steps(o, false)).sum()));
+      c.threads.push((tid, ops));
+    }
+    // the other threads read at offsets around the places the cursor visits
+    for tid in movers + 1..=nt {
+      let mut ops = Vec::new();
+      for _ in 0..self.rng.range(2, 6) {
+        let mid = self.rng.range(top, reach.max(top + 1));
+        let around = self.rng.pick(&[top, reach, mid]);
+        let off = (around + self.rng.range(0, 4)).saturating_sub(self.rng.range(0, 6));
+        if self.rng.chance(75) {
+          let ty = self.rng.pick(&["u8", "u8", "i8", "u16", "u32", "u64", "i64", "u128"]);
+          let ord = self.rng.pick(&["be", "le"]);
+          ops.push(format!("rd {ty} {ord} {off}"));
+        } else {
+          let ty = self.rng.pick(&["u16", "u32", "u64", "i32", "u128"]);
+          ops.push(format!("rd_var {ty} {off}"));
+        }
+      }
+      est.push((tid, ops.iter().map(|o| est_steps(o, false)).sum()));
+      c.threads.push((tid, ops));
+    }
     c.noclone = self.rng.chance(25);
     c.sched = self.schedule(&est);
     c
@@ -981,6 +1045,7 @@ fn gen(args: &[String]) {
           "refs" => Profile::Refs,
           "aba" => Profile::Aba,
           "crashseq" => Profile::CrashSeq,
+          "readers" => Profile::Readers,
           _ => usage(),
         })
       }
@@ -1012,6 +1077,7 @@ fn gen(args: &[String]) {
       Profile::Refs => g.case_refs(),
       Profile::Aba => g.case_aba(),
       Profile::CrashSeq => g.case_crashseq(),
+      Profile::Readers => g.case_readers(),
     };
     cases_file.write_all(c.text().as_bytes()).expect("write .cases");
     cases_file.flush().expect("write .cases");
